@@ -163,7 +163,7 @@ package processor
 //@   nopanic C13
 
 //@ func (p *Processor) handleMessage(ctx context.Context, k *common.MessagePublication)
-//@   props C13 C01 C02
+//@   props C13 C01 C02 C04
 //@   ensures [governance-never-signed] old(k.EmitterAddress == p.governanceEmitterAddress && k.EmitterChain == p.governanceChainId) ==> unchanged("chan") && unchanged("vaaState.*") && unchanged("map[string]*vaaState")
 //@   ensures [dropped-without-set] old(p.gs) == nil ==> unchanged("chan") && unchanged("vaaState.*") && unchanged("map[string]*vaaState")
 //@   ensures [never-stores] storeUnchanged(p.db)
